@@ -101,7 +101,9 @@ func recoverAndCheck(cfg string, img *vstor.Stor, issued []model.Batch, must []b
 		}
 		// fully usable: write, compact, reopen
 		if !w.Failed() {
-			for _, op := range []string{"put:a", "w:+b,-a", "cr", "re", "del:b", "q"} {
+			// (the first write after a recovery must itself survive a plain reopen: it is in the journal the
+			// recovery created)
+			for _, op := range []string{"put:a", "re", "w:+b,-a", "cr", "re", "del:b", "q"} {
 				w.Apply(op)
 				if w.Failed() {
 					break
@@ -482,6 +484,14 @@ func init() {
 				if cfg == "flushy/bytewise" || cfg == "default/bytewise" {
 					tasks = append(tasks, crashTask{Cfg: cfg, Ops: []string{"Sput:b", "SputX:a", "Sput:c"}, Full: full, Nested: true},
 						crashTask{Cfg: cfg, Ops: []string{"SputX:a", "re", "SputX:b", "put:c"}, Full: full, Nested: c.Tier == "thorough"})
+				}
+				// file numbers handed out and never recorded (the tables of a discarded transaction) before the
+				// write buffer is rotated: the crash leaves a journal whose number is above the manifest's
+				// next-file-number by 1..4
+				if cfg == "flushy/bytewise" || cfg == "bigbatch/bytewise" {
+					for k := 1; k <= 4; k++ {
+						tasks = append(tasks, crashTask{Cfg: cfg, Ops: []string{"Sput:a", fmt.Sprintf("trd:%d", k), "Sput:b", "Sput:c", "put:a", "Sput:b"}, Full: full, Nested: c.Tier == "thorough"})
+					}
 				}
 				nestMax := 2 // crash again inside recovery for the short histories
 				if c.Tier == "thorough" {
